@@ -140,6 +140,16 @@ def run(ctx):
         meta.append(("stmts", "transform", None))
         cases.append({"src": "set p to pattern 'a' begin %s end\nfind all p" % body.replace("'x'", "true"), "texts": []})
         meta.append(("stmts", "predicate", None))
+    # names are case-sensitive, the built-in ones included: a name that differs in case from an assigned or built-in one is an UNKNOWN name (a string)
+    for e in ("count - 'x'", "Count - 'x'", "count * 2", "Count * 2", "matchlength * matchlength", "matchLength * matchLength", "MATCHLENGTH - 1", "Match + 1", "match * match", "MatchNumber * 2", "matchnumber - 'x'",
+              "K * k", "k * K", "k - 'x'", "K - 'x'", "head Count", "head count", "not Flag", "not flag", "FLAG and flag"):
+        pre = "set Count to 1 set K to 'a' set k to 2 set flag to true "
+        cases.append({"src": "set f to transform %s return '' + (%s) end\nreplace all 'a' with f" % (pre, e), "texts": ["a", "aa"]})
+        meta.append(("stmts", "transform", None))
+        cases.append({"src": "set p to pattern 'a' begin %s return '' == (%s) end\nfind all p" % (pre, e), "texts": ["a", "aa"]})
+        meta.append(("stmts", "predicate", None))
+        cases.append({"src": "set p to pattern 'a' begin %s if (%s) == 1 then return true end return false end\nfind all p" % (pre, e), "texts": ["a"]})
+        meta.append(("stmts", "predicate", None))
     # several definitions in one program: each is checked in its own environment (a name assigned in one is an unknown name, hence a string, in the others)
     for _ in range(300 if quick else 4000):
         defs, uses = [], []
